@@ -12,6 +12,16 @@ add("C06", "metamorphic runtime monitor (identity / concatenation relations) ove
     "Runtime exploration: every string up to length 5/6 over the lexer-significant alphabet is compiled and rendered (exhaustive for that sub-space), plus random byte strings and fragment sequences; the oracle compares the engine's output with the source / the concatenation of the parts' renderings and watches a call counter placed inside comments. Held means: no deviation on the executions observed.",
     "Trusts the Go runtime and the harness' fragment generator (seams never create an opening delimiter). Whitespace control is excluded (C15).")
 
+add("C07", "reference-model runtime monitor: independent evaluator of generated expression trees vs the engine's output for the minimally parenthesised text; call counters observe short-circuiting",
+    "Runtime exploration: all expression trees of depth <= 2 over 27 leaves (exhaustive for that sub-space), the depth-3 trees over 5 leaves (all in thorough, every 16th in quick) and random deep trees are printed with minimal parentheses in several layouts and executed in {{ }} and {% if %}; an independent tree evaluator supplies the expected value/error/branch and the expected number of calls of counting functions. Held = no deviation on the executions observed.",
+    "Trusts the harness' evaluator and printer (precedence table of the property). Fragment restrictions of the property are applied; out-of-fragment trees are counted as unjudged, int^int and not-on-int accept both documented spellings.")
+add("C17", "runtime monitor with independent decoders (HTML unescape, \\uXXXX/surrogate decoding, url.QueryUnescape, reference functions) over exhaustive BMP runes, exhaustive short special-character strings and random strings; two routes (ApplyFilter, template) compared",
+    "Runtime exploration: each escaping filter is applied to every BMP code point, to all strings of up to 3 blocks over 17 special blocks (exhaustive sub-spaces) and to random hostile strings; the oracle checks the promised output alphabet and that decoding gives the input back. Held = no deviation on the applications observed.",
+    "Trusts Go's net/url and unicode/utf16 as decoders. escapejs/iriencode on invalid UTF-8 input are judged only for their alphabet / not at all.")
+add("C18", "reference-function runtime monitor over exhaustive integer windows and random inputs; two routes (ApplyFilter, template) compared",
+    "Runtime exploration: per filter the integer-argument windows of DESIGN.md appendix A are enumerated completely (slice bounds, widths, digits, floatformat arguments, widthratio operands) and random texts/numbers/sequences are added; every result is compared with a small independent reference function. Held = no deviation on the applications observed.",
+    "Trusts the reference functions (written from Django 1.7's documentation and the repository's pinned fixtures); inputs outside the judged domains of appendix A are not generated or counted as unjudged.")
+
 ALL = ["C%02d" % i for i in range(1, 21)]
 NOT_YET = {}
 
